@@ -26,7 +26,7 @@ import (
 type spec struct {
 	server string
 	batch  string
-	kind   string // evict stopBusy stopInit reject sendErr sendErrBusy timeoutRace twoStop port0
+	kind   string // evict stopBusy stopInit reject sendErr sendErrBusy timeoutRace twoStop port0 evictTwo
 }
 
 func (s spec) String() string {
@@ -116,6 +116,26 @@ func scenario(param string) vsched.Scenario {
 				socksAfterEvict = vudp.OpenRelaySockets()
 				c.Send(target, []byte("p2"))
 				secondEcho = recvEcho("echo:p2")
+			case "evictTwo":
+				// two client addresses with a session each; both idle out; both come back
+				c2 := env.NewClient(1, 0)
+				defer c2.Close()
+				c.Send(target, []byte("p1"))
+				firstEcho = recvEcho("echo:p1")
+				c2.Send(target, []byte("q1"))
+				if _, pl, err := c2.Recv(0); err != nil || string(pl) != "echo:q1" {
+					firstEcho = fmt.Sprintf("second client: %q %v", pl, err)
+				}
+				vsched.Sleep(natTimeout + 5*time.Second)
+				vsched.WaitIdle()
+				tableAfterEvict = env.TableLen()
+				socksAfterEvict = vudp.OpenRelaySockets()
+				c.Send(target, []byte("p2"))
+				secondEcho = recvEcho("echo:p2")
+				c2.Send(target, []byte("q2"))
+				if _, pl, err := c2.Recv(0); err != nil || string(pl) != "echo:q2" {
+					secondEcho = fmt.Sprintf("second client: %q %v", pl, err)
+				}
 			case "timeoutRace":
 				c.Send(target, []byte("p1"))
 				firstEcho = recvEcho("echo:p1")
@@ -196,7 +216,7 @@ func scenario(param string) vsched.Scenario {
 				return obs, "deadlock or no termination: " + bl
 			}
 			switch sp.kind {
-			case "evict":
+			case "evict", "evictTwo":
 				if firstEcho != "echo:p1" {
 					return obs, "first datagram was not echoed: " + firstEcho
 				}
@@ -243,7 +263,7 @@ func family(c *harness.Check) []string {
 	var out []string
 	for _, sv := range []string{"none", "ss2022", "socks5", "direct"} {
 		for _, b := range []string{"no", "sendmmsg"} {
-			for _, k := range []string{"evict", "timeoutRace", "stopBusy", "stopInit", "reject", "sendErr", "sendErrBusy", "twoStop", "port0"} {
+			for _, k := range []string{"evict", "timeoutRace", "stopBusy", "stopInit", "reject", "sendErr", "sendErrBusy", "twoStop", "port0", "evictTwo"} {
 				if !c.Thorough() && (sv == "socks5" || sv == "direct") && (k == "timeoutRace" || k == "twoStop" || k == "reject") {
 					continue
 				}
